@@ -31,7 +31,7 @@ HEADER = "Require Import PF.Lib.ListX PF.Lib.Chunks PF.Model.Embedders."
 MODEL_TARGETS = ["Model/Embedders.vo"]
 SHARD = 150
 RULE = ("DataFrames of 1-8 rows with 1-3 text_embedded / image_embedded / text_tokenized columns (any strings incl. "
-        "'nan'/'None'/'' and non-ASCII, missing cells as None / np.nan / float('nan') / pd.NA, object or str dtype, five "
+        "'nan'/'None'/'' and non-ASCII, missing cells as None / np.nan / float('nan') / pd.NA, object / str / string dtype, five "
         "index labelings), batch_size in {None, 1..n+1}, per-column or shared configs, four tokenizer stub variants, "
         "through Dataset.materialize or the mapper directly; distinct = distinct (via, per-column (stype, dtype, "
         "missing kinds present, n vs batch_size relation, tokenizer variant), shared); non-trivial = every case (n >= 1)")
@@ -49,6 +49,11 @@ ASSUMPTIONS = [
     "batch-padded mapping-format tokenizer, whose rows are checked against the output for their own chunk)",
     "columns have at least one row (an empty column raises in every branch; outside the property)",
     "stub outputs are dyadic floats / small ints, so float32 round-trips are exact",
+    "'called only with lists of Python strings (never a float or None)' is a typing fact of the Coq model "
+    "(arg_lists : list (list string)), not a theorem about mapper.py; for the real code it is OBSERVED by this harness "
+    "on every run: the stubs record the raw argument objects and the oracle requires type(args) is list and "
+    "type(x) is str for every element of every call (keys nonlist-arg:* / nonstr-arg:*); which config family serves "
+    "which stype (_get_mapper's dispatch) is likewise observed (each column has its own recording stub), not modelled",
 ]
 
 STYPES = ["text_embedded", "image_embedded", "text_tokenized"]
@@ -90,7 +95,7 @@ def tok_rows(variant, nkeys, chunk):
 
 
 def record(xs):
-    return {"container": type(xs).__name__,
+    return {"container": "list" if type(xs) is list else "not-list:" + type(xs).__name__,
             "elems": [x if type(x) is str else {"nonstr": type(x).__name__, "repr": repr(x)[:40]} for x in xs]}
 
 
@@ -160,7 +165,7 @@ def gen_col(rng, name, st, n, bs=None, variant=None, miss_p=None, dtype=None, na
     miss_p = rng.pick([0.0, 0.2, 0.5, 1.0]) if miss_p is None else miss_p
     pool = [gen_string(rng) for _ in range(rng.randint(1, 4))] if rng.chance(0.3) else None
     cells = [None if rng.chance(miss_p) else (rng.pick(pool) if pool else gen_string(rng)) for _ in range(n)]
-    col = {"name": name, "stype": st, "dtype": dtype or rng.pick(["object", "str"]), "cells": cells,
+    col = {"name": name, "stype": st, "dtype": dtype or rng.pick(["object", "str", "object", "str", "string"]), "cells": cells,
            "nan_kind": nan_kind or rng.pick(["none", "nan", "pynan", "NA"]),
            "batch_size": (None if rng.chance(0.25) else rng.randint(1, n + 1)) if bs is None else (bs or None)}
     if st == "text_tokenized":
@@ -209,7 +214,7 @@ def exhaustive(rng):
         for bs in [0] + list(range(1, n + 2)):              # 0 stands for None
             for st, variant in [("text_embedded", None), ("image_embedded", None)] + \
                     [("text_tokenized", v) for v in TOK_VARIANTS]:
-                for dtype in ("object", "str"):
+                for dtype in ("object", "str", "string"):
                     col = gen_col(rng, "txt", st, n, bs=bs, variant=variant, miss_p=0.0, dtype=dtype)
                     col["cells"][rng.randint(0, n - 1)] = None
                     out.append({"n": n, "index": "range", "cols": [col], "via": "dataset", "shared": [],
@@ -239,7 +244,7 @@ def build_df(case):
         col = by[name]
         mv = missing_value(col["nan_kind"])
         vals = [mv if c is None else c for c in col["cells"]]
-        data[name] = pd.Series(vals, dtype="str" if col["dtype"] == "str" else object)
+        data[name] = pd.Series(vals, dtype={"str": "str", "string": "string"}.get(col["dtype"], object))
     if case.get("extra_num"):
         data["num"] = pd.Series([float(i) for i in range(case["n"])], dtype=float)
     df = pd.DataFrame(data)
@@ -336,7 +341,9 @@ def rendered(col):
         if c is not None:
             out.append(c)
         elif col["dtype"] == "str":
-            out.append("nan")
+            out.append("nan")          # the NaN-backed native string dtype holds NaN for every missing value
+        elif col["dtype"] == "string":
+            out.append("<NA>")         # the NA-backed string dtype holds pd.NA
         else:
             out.append({"none": "None", "nan": "nan", "pynan": "nan", "NA": "<NA>"}[col["nan_kind"]])
     return out
@@ -400,12 +407,12 @@ def oracle(case, obs):
         rec = obs["cols"][col["name"]]
         # 1. only lists of Python strings
         for call in rec["calls"]:
-            bad = [e for e in call["elems"] if not isinstance(e, str)]
+            if call["container"] != "list":
+                return dict(key=f"nonlist-arg:{st}", what=f"the {st} callable received a {call['container']}, not a list")
+            bad = [e for e in call["elems"] if type(e) is not str]     # record() keeps str only if type(x) is str
             if bad:
                 return dict(key=f"nonstr-arg:{st}", what=f"the {st} callable of column {col['name']!r} received a "
                             f"{bad[0]['nonstr']} ({bad[0]['repr']}) instead of a string", observed=call)
-            if call["container"] != "list":
-                return dict(key=f"nonlist-arg:{st}", what=f"the {st} callable received a {call['container']}, not a list")
         # 2. every row exactly once, in row order, in consecutive chunks of at most batch_size
         want = py_chunks(rendered(col), col["batch_size"])
         got = calls_of[col["name"]]
@@ -497,6 +504,57 @@ def stats(cases, obss):
     return d
 
 
+def sanity(cases, obss):
+    """Fail-closed distribution check: a run that does not cover the distinctions the property quantifies over
+    must not report green."""
+    d = stats(cases, obss)
+    probs = []
+    tot = d["total"]
+    if not tot:
+        return ["no cases"]
+    if d["error_cases"] > 0.1 * tot:
+        probs.append(f"{d['error_cases']} of {tot} cases raise")
+    for st in STYPES:
+        if not d["stype"].get(st):
+            probs.append(f"stype {st} never drawn")
+    for k in ("object", "str", "string"):
+        if not d["dtype"].get(k):
+            probs.append(f"dtype {k} never drawn")
+    for k in ("None", "bs>n", "bs=n", "bs|n", "rem1", "rem>1"):
+        if not d["bs_vs_n"].get(k):
+            probs.append(f"batch_size/rows relation {k} never drawn")
+    for nk in ("none", "nan", "pynan", "NA"):
+        for dt in ("object", "str"):
+            if not d["missing_kind"].get(f"{nk}/{dt}"):
+                probs.append(f"missing kind {nk} in a {dt} column never drawn")
+    for v in TOK_VARIANTS:
+        if not d["tok_variant"].get("/".join(v)):
+            probs.append(f"tokenizer variant {v} never drawn")
+    for k in (1, 2, 3):
+        if not d["ncols"].get(k):
+            probs.append(f"{k}-column frames never drawn")
+    for k in ("range", "offset", "perm", "string", "dup"):
+        if not d["index"].get(k):
+            probs.append(f"index labeling {k} never drawn")
+    if not d["shared"]:
+        probs.append("shared (single) config never drawn")
+    if HAVE_MAPPERS and not d["via"].get("mapper"):
+        probs.append("direct mapper path never drawn")
+    if not d["via"].get("dataset"):
+        probs.append("Dataset path never drawn")
+    # every recorded call element must have been inspected: at least one missing cell must have reached a callable
+    seen_missing = 0
+    for c, o in zip(cases, obss):
+        if c is None or not o or "cols" not in o:
+            continue
+        for col in c["cols"]:
+            if any(v is None for v in col["cells"]) and o["cols"].get(col["name"], {}).get("calls"):
+                seen_missing += 1
+    if not seen_missing:
+        probs.append("no missing cell ever reached a callable")
+    return probs
+
+
 # --------------------------------------------------------------------- Coq side
 def cstr(s):
     assert "\x00" not in s
@@ -570,7 +628,7 @@ def coq_term(case, obs):
                 got = rec["calls"]
             calls = C.clist(got, lambda call: cstrs([e if isinstance(e, str) else f"<nonstr:{e['nonstr']}>"
                                                      for e in call["elems"]]))
-            dt = "DStr" if c["dtype"] == "str" else "DObject"
+            dt = {"str": "DStr", "string": "DStringNA"}.get(c["dtype"], "DObject")
             raw = C.clist(c["cells"], lambda v: ccell(c, v))
             failed = "exc" in obs or "exc" in rec or rec.get("missing_in_frame") or "rows" not in rec
             if st == "text_tokenized":
